@@ -24,6 +24,7 @@ type RunConfig struct {
 // Knobs are the per-run swarm parameters (drawn once at the start of the run).
 type Knobs struct {
 	PSwitch     float64
+	PTimeBusy   float64
 	WDeliver    int
 	WStart      int
 	WResume     int
@@ -43,7 +44,7 @@ type Knobs struct {
 
 func (s *Sim) DrawKnobs() {
 	ch := s.Ch
-	k := Knobs{WDeliver: 40, WStart: 20, WResume: 5, WTime: 1, WDue: 10, MaxLagSteps: 40, MaxLag: 2 * time.Second, FaultKinds: map[string]bool{}}
+	k := Knobs{WDeliver: 40, WStart: 20, WResume: 20, WTime: 20, WDue: 20, MaxLagSteps: 40, MaxLag: 2 * time.Second, FaultKinds: map[string]bool{}}
 	// preemption probability: mostly small, sometimes chaotic
 	switch ch.Pick("k.pswitch", 6) {
 	case 0:
@@ -61,7 +62,8 @@ func (s *Sim) DrawKnobs() {
 	}
 	k.WDeliver = []int{40, 10, 80, 20}[ch.Pick("k.wdeliver", 4)]
 	k.WStart = []int{20, 40, 10}[ch.Pick("k.wstart", 3)]
-	k.WResume = []int{5, 1, 20}[ch.Pick("k.wresume", 3)]
+	k.WResume = []int{20, 5, 60}[ch.Pick("k.wresume", 3)]
+	k.PTimeBusy = []float64{0.01, 0, 0.05, 0.2}[ch.Pick("k.ptimebusy", 4)]
 	k.MaxLagSteps = []int{40, 10, 100}[ch.Pick("k.lag", 3)]
 	if !s.Cfg.NoFaults && s.Cfg.Forced == nil {
 		// swarm: each fault kind is enabled in a subset of runs
